@@ -84,6 +84,9 @@ func genN(t *rapid.T, l int) int {
 	case 5:
 		return l + 1
 	case 6:
+		if rapid.IntRange(0, 39).Draw(t, "nbigkind") == 0 {
+			return rapid.SampledFrom([]int{4096, 4097, 5000, 32768, 40000}).Draw(t, "nbigger")
+		}
 		return rapid.IntRange(1025, 1500).Draw(t, "nbig")
 	default:
 		return rapid.IntRange(0, l+2).Draw(t, "nrand")
@@ -97,10 +100,43 @@ type Case64 struct {
 	Word  uint64 `json:"word"`
 	Thr   int32  `json:"thr"`
 	N     int    `json:"n"`
+	NHuge int    `json:"n_huge,omitempty"` // a second quota, for the iterators only (GetN allocates n slots): "give me everything"
 	Pos   int    `json:"pos"`
 	Slack int    `json:"slack"`
 	Add   int64  `json:"add"`
 	SetI  []int  `json:"set_i"` // Set/Unset script on the word: value = index (0..255), negative = unset(-v-1)
+}
+
+// genPos: mostly the first few slots; sometimes far into a long slice (real callers chain many bitmaps into one
+// slice), at the boundaries of 8-, 15- and 16-bit cursors.
+func genPos(t *rapid.T) int {
+	switch rapid.IntRange(0, 99).Draw(t, "poskind") {
+	case 0:
+		return rapid.SampledFrom([]int{32766, 32767, 32768, 40000, 65535, 65536}).Draw(t, "posbig")
+	case 1, 2:
+		return rapid.SampledFrom([]int{127, 128, 255, 256}).Draw(t, "posmid")
+	}
+	return rapid.IntRange(0, 4).Draw(t, "pos")
+}
+
+// genNHuge: quotas far above any population, up to the integer limit (0 = none in this case).
+func genNHuge(t *rapid.T, pos int) int {
+	if rapid.IntRange(0, 7).Draw(t, "nhugekind") != 0 {
+		return 0
+	}
+	return rapid.SampledFrom([]int{4097, 32767, 32768, 40000, 65536, math.MaxInt32, math.MaxInt32 + 1, math.MaxInt - pos, math.MaxInt - 1, math.MaxInt}).Draw(t, "nhuge")
+}
+
+// skipForBigPos: a position tens of thousands of slots into the slice costs a slice of that length per call, so such
+// a case exercises one iterator pair (forward and reverse of one width), chosen by the case's own numbers, not all.
+func skipForBigPos(pos, specIdx, pick, nspecs int) bool {
+	if pos < 1000 {
+		return false
+	}
+	if pick < 0 {
+		pick = -pick
+	}
+	return specIdx/2 != pick%(nspecs/2)
 }
 
 func genAdd(t *rapid.T) int64 {
@@ -113,7 +149,8 @@ func Gen64(t *rapid.T) Case64 {
 	w := GenWord(t, thr, "w")
 	c := Case64{Word: w, Thr: thr}
 	c.N = genN(t, bits.OnesCount64(w))
-	c.Pos = rapid.IntRange(0, 4).Draw(t, "pos")
+	c.Pos = genPos(t)
+	c.NHuge = genNHuge(t, c.Pos)
 	c.Slack = rapid.IntRange(0, 2).Draw(t, "slack")
 	c.Add = genAdd(t)
 	k := rapid.IntRange(0, 4).Draw(t, "nset")
@@ -273,6 +310,36 @@ func specs64(b bitmap1024.Bit64) []iterSpec {
 }
 
 // checkGetN compares a GetN* result (n >= 0 only: it allocates n slots).
+// keptLists: every list a GetN* call handed out, with a copy taken at once. The list belongs to the caller: it reads
+// the same after any number of later calls (on this bitmap, on others).
+type keptLists struct {
+	items []keptList
+}
+
+type keptList struct {
+	name string
+	read func() []int64
+	then []int64
+}
+
+func keep[T int8 | int16 | int32 | uint32 | int64](k *keptLists, name string, s []T) []int64 {
+	now := toI64(s)
+	k.items = append(k.items, keptList{name, func() []int64 { return toI64(s) }, now})
+	return now
+}
+
+func (k *keptLists) check(res *vkit.Result, ctx string) {
+	if res.Fail != nil {
+		return
+	}
+	for _, it := range k.items {
+		if now := it.read(); !slices.Equal(now, it.then) {
+			res.Failf(it.name+"/retained", "%s: the list %s returned changed after later calls: was %v, reads %v", ctx, it.name, it.then, now)
+			return
+		}
+	}
+}
+
 func checkGetN(res *vkit.Result, name string, reverse bool, mem []int, n int, got []int64, ctx string) {
 	if res.Fail != nil {
 		return
@@ -296,6 +363,10 @@ func checkGetN(res *vkit.Result, name string, reverse bool, mem []int, n int, go
 
 func Exec64(c Case64) *vkit.Result {
 	res := &vkit.Result{}
+	if c.Pos < 0 || c.Pos > 1<<20 || c.Slack < 0 || c.Slack > 64 || c.N > 1<<20 {
+		res.Skip("malformed-case")
+		return res
+	}
 	defer bitmap1024.VerifSetSparseMagic(9)
 	w := bitmap1024.Bit64(c.Word)
 	model := c.Word
@@ -329,18 +400,32 @@ func Exec64(c Case64) *vkit.Result {
 	for _, thr := range thrs {
 		bitmap1024.VerifSetSparseMagic(thr)
 		ctx = fmt.Sprintf("word=%#x thr=%d", model, thr)
-		for _, sp := range specs64(w) {
+		for si, sp := range specs64(w) {
+			if skipForBigPos(c.Pos, si, c.Slack+len(mem)+int(c.Thr), 10) {
+				continue
+			}
 			checkIter(res, sp, mem, c.Pos, c.Slack, c.Add, c.N, ctx)
+			if c.NHuge > 0 {
+				checkIter(res, sp, mem, c.Pos, c.Slack, c.Add, c.NHuge, ctx)
+			}
 		}
 		if c.N >= 0 {
-			checkGetN(res, "Bit64.GetNAsI64", false, mem, c.N, w.GetNAsI64(c.N), ctx)
-			checkGetN(res, "Bit64.RGetNAsI64", true, mem, c.N, w.RGetNAsI64(c.N), ctx)
-			checkGetN(res, "Bit64.GetNAsI32", false, mem, c.N, toI64(w.GetNAsI32(c.N)), ctx)
-			checkGetN(res, "Bit64.RGetNAsI32", true, mem, c.N, toI64(w.RGetNAsI32(c.N)), ctx)
-			checkGetN(res, "Bit64.GetNAsI16", false, mem, c.N, toI64(w.GetNAsI16(c.N)), ctx)
-			checkGetN(res, "Bit64.RGetNAsI16", true, mem, c.N, toI64(w.RGetNAsI16(c.N)), ctx)
-			checkGetN(res, "Bit64.GetNAsI8", false, mem, c.N, toI64(w.GetNAsI8(c.N)), ctx)
-			checkGetN(res, "Bit64.RGetNAsI8", true, mem, c.N, toI64(w.RGetNAsI8(c.N)), ctx)
+			var kl keptLists
+			checkGetN(res, "Bit64.GetNAsI64", false, mem, c.N, keep(&kl, "Bit64.GetNAsI64", w.GetNAsI64(c.N)), ctx)
+			checkGetN(res, "Bit64.RGetNAsI64", true, mem, c.N, keep(&kl, "Bit64.RGetNAsI64", w.RGetNAsI64(c.N)), ctx)
+			checkGetN(res, "Bit64.GetNAsI32", false, mem, c.N, keep(&kl, "Bit64.GetNAsI32", w.GetNAsI32(c.N)), ctx)
+			checkGetN(res, "Bit64.RGetNAsI32", true, mem, c.N, keep(&kl, "Bit64.RGetNAsI32", w.RGetNAsI32(c.N)), ctx)
+			checkGetN(res, "Bit64.GetNAsI16", false, mem, c.N, keep(&kl, "Bit64.GetNAsI16", w.GetNAsI16(c.N)), ctx)
+			checkGetN(res, "Bit64.RGetNAsI16", true, mem, c.N, keep(&kl, "Bit64.RGetNAsI16", w.RGetNAsI16(c.N)), ctx)
+			checkGetN(res, "Bit64.GetNAsI8", false, mem, c.N, keep(&kl, "Bit64.GetNAsI8", w.GetNAsI8(c.N)), ctx)
+			checkGetN(res, "Bit64.RGetNAsI8", true, mem, c.N, keep(&kl, "Bit64.RGetNAsI8", w.RGetNAsI8(c.N)), ctx)
+			// the same calls on the complement word (other members), then the lists handed out before are read again
+			if thr == c.Thr {
+				cw := ^w
+				_, _, _, _ = cw.GetNAsI64(c.N), cw.RGetNAsI64(c.N), cw.GetNAsI32(c.N), cw.RGetNAsI32(c.N)
+				_, _, _, _ = cw.GetNAsI16(c.N), cw.RGetNAsI16(c.N), cw.GetNAsI8(c.N), cw.RGetNAsI8(c.N)
+				kl.check(res, ctx)
+			}
 		}
 	}
 	classify(res, c.N, len(mem), []int{len(mem)}, c.Thr)
@@ -391,6 +476,7 @@ type Case1024 struct {
 	Ops   []SetOp  `json:"ops"`
 	Thr   int32    `json:"thr"`
 	N     int      `json:"n"`
+	NHuge int      `json:"n_huge,omitempty"` // a second quota, for the iterators only
 	Pos   int      `json:"pos"`
 	Slack int      `json:"slack"`
 	Add   int64    `json:"add"`
@@ -440,7 +526,8 @@ func Gen1024(t *rapid.T) Case1024 {
 		l += bits.OnesCount64(w)
 	}
 	c.N = genN(t, l)
-	c.Pos = rapid.IntRange(0, 4).Draw(t, "pos")
+	c.Pos = genPos(t)
+	c.NHuge = genNHuge(t, c.Pos)
 	c.Slack = rapid.IntRange(0, 2).Draw(t, "slack")
 	c.Add = genAdd(t)
 	return c
@@ -525,7 +612,7 @@ func specs1024(b bitmap1024.Bit1024) []iterSpec {
 
 func Exec1024(c Case1024) *vkit.Result {
 	res := &vkit.Result{}
-	if len(c.Words) != 16 || len(c.Other) != 16 {
+	if len(c.Words) != 16 || len(c.Other) != 16 || c.Pos < 0 || c.Pos > 1<<20 || c.Slack < 0 || c.Slack > 64 || c.N > 1<<20 {
 		res.Skip("malformed-case")
 		return res
 	}
@@ -587,6 +674,32 @@ func Exec1024(c Case1024) *vkit.Result {
 	if b.Equal(o) != eq || !b.Equal(toBit1024(wordsOf(m))) {
 		return res.Failf("Bit1024.Equal", "Equal(other)=%v, model %v", b.Equal(o), eq)
 	}
+	// results are values of their own: they stay what they were after further algebra on other operands, and setting
+	// or clearing a member of a result touches neither operand
+	rAnd, rOr, rRev, rOrRev := b.And(o), b.Or(o), b.Reverse(), b.OrThenReverse(o)
+	_, _, _, _ = o.And(rRev), o.Or(rAnd), o.Reverse(), o.OrThenReverse(rRev)
+	for _, x := range []struct {
+		name string
+		r    bitmap1024.Bit1024
+		want *model1024
+	}{{"And", rAnd, &and}, {"Or", rOr, &or}, {"Reverse", rRev, &rev}, {"OrThenReverse", rOrRev, &orrev}} {
+		if i, ok := sameAsModel(x.r, x.want); !ok {
+			return res.Failf("Bit1024."+x.name+"/retained", "the result of %s changed after later algebra calls on other operands (bit %d)", x.name, i)
+		}
+		for _, idx := range []int32{0, 5, 63, 64, 1023} {
+			if x.want[idx] {
+				x.r.UnsetI32(idx)
+			} else {
+				x.r.SetI32(idx)
+			}
+		}
+		if i, ok := sameAsModel(b, m); !ok {
+			return res.Failf("Bit1024."+x.name+"/aliases-operand", "setting/clearing members of the result of %s changed the receiver (bit %d)", x.name, i)
+		}
+		if i, ok := sameAsModel(o, om); !ok {
+			return res.Failf("Bit1024."+x.name+"/aliases-operand", "setting/clearing members of the result of %s changed the argument (bit %d)", x.name, i)
+		}
+	}
 	// the operands must not have been modified by the algebra
 	if _, ok := sameAsModel(b, m); !ok {
 		return res.Failf("Bit1024.algebra-mutates", "receiver changed by And/Or/Reverse/OrThenReverse/Equal")
@@ -601,30 +714,31 @@ func Exec1024(c Case1024) *vkit.Result {
 	for _, thr := range []int32{c.Thr, 9} {
 		bitmap1024.VerifSetSparseMagic(thr)
 		ctx := fmt.Sprintf("thr=%d", thr)
-		for _, sp := range specs1024(b) {
+		for si, sp := range specs1024(b) {
+			if skipForBigPos(c.Pos, si, c.Slack+len(mem)+int(c.Thr), 8) {
+				continue
+			}
 			checkIter(res, sp, mem, c.Pos, c.Slack, c.Add, c.N, ctx)
+			if c.NHuge > 0 {
+				checkIter(res, sp, mem, c.Pos, c.Slack, c.Add, c.NHuge, ctx)
+			}
 		}
 		if c.N >= 0 {
 			// a list handed out belongs to the caller: it reads the same after the later calls (of this bitmap and of its
 			// complement, which has other members)
-			first, firstR, first16 := b.GetNAsI64(c.N), b.RGetNAsI64(c.N), b.GetNAsI16(c.N)
-			copy1, copyR, copy16 := append([]int64(nil), first...), append([]int64(nil), firstR...), append([]int16(nil), first16...)
-			defer func(ctx string) {
-				if res.Fail != nil {
-					return
-				}
-				rev := b.Reverse()
-				_, _, _ = rev.GetNAsI64(c.N), rev.RGetNAsI64(c.N), rev.GetNAsI16(c.N)
-				if !slices.Equal(first, copy1) || !slices.Equal(firstR, copyR) || !slices.Equal(first16, copy16) {
-					res.Failf("Bit1024.GetNAs/retained", "%s: a list returned by GetNAsI64/RGetNAsI64/GetNAsI16(%d) changed after later calls: %v / %v / %v, were %v / %v / %v", ctx, c.N, first, firstR, first16, copy1, copyR, copy16)
-				}
-			}(ctx)
-			checkGetN(res, "Bit1024.GetNAsI64", false, mem, c.N, first, ctx)
-			checkGetN(res, "Bit1024.RGetNAsI64", true, mem, c.N, firstR, ctx)
-			checkGetN(res, "Bit1024.GetNAsI32", false, mem, c.N, toI64(b.GetNAsI32(c.N)), ctx)
-			checkGetN(res, "Bit1024.RGetNAsI32", true, mem, c.N, toI64(b.RGetNAsI32(c.N)), ctx)
-			checkGetN(res, "Bit1024.GetNAsI16", false, mem, c.N, toI64(b.GetNAsI16(c.N)), ctx)
-			checkGetN(res, "Bit1024.RGetNAsI16", true, mem, c.N, toI64(b.RGetNAsI16(c.N)), ctx)
+			var kl keptLists
+			checkGetN(res, "Bit1024.GetNAsI64", false, mem, c.N, keep(&kl, "Bit1024.GetNAsI64", b.GetNAsI64(c.N)), ctx)
+			checkGetN(res, "Bit1024.RGetNAsI64", true, mem, c.N, keep(&kl, "Bit1024.RGetNAsI64", b.RGetNAsI64(c.N)), ctx)
+			checkGetN(res, "Bit1024.GetNAsI32", false, mem, c.N, keep(&kl, "Bit1024.GetNAsI32", b.GetNAsI32(c.N)), ctx)
+			checkGetN(res, "Bit1024.RGetNAsI32", true, mem, c.N, keep(&kl, "Bit1024.RGetNAsI32", b.RGetNAsI32(c.N)), ctx)
+			checkGetN(res, "Bit1024.GetNAsI16", false, mem, c.N, keep(&kl, "Bit1024.GetNAsI16", b.GetNAsI16(c.N)), ctx)
+			checkGetN(res, "Bit1024.RGetNAsI16", true, mem, c.N, keep(&kl, "Bit1024.RGetNAsI16", b.RGetNAsI16(c.N)), ctx)
+			if thr == c.Thr {
+				cb := b.Reverse()
+				_, _, _ = cb.GetNAsI64(c.N), cb.RGetNAsI64(c.N), cb.GetNAsI32(c.N)
+				_, _, _ = cb.RGetNAsI32(c.N), cb.GetNAsI16(c.N), cb.RGetNAsI16(c.N)
+				kl.check(res, ctx)
+			}
 		}
 	}
 	if _, ok := sameAsModel(b, m); !ok {
